@@ -30,6 +30,12 @@ pub struct Spec {
     pub skip_ws: bool,
     pub actions: bool,
     pub force: bool,
+    /// do not call `.force(..)` at all and rely on the documented default:
+    /// with actions in the source tree an existing file is not overwritten
+    /// unless force was given explicitly.  Only honoured when that default
+    /// equals `force` (in-source, force == false); API vehicles only -- rcomp
+    /// always passes the flag explicitly.
+    pub force_implicit: bool,
     /// false: outputs next to the grammar; true: separate out dirs
     pub out_dirs: bool,
     /// side outputs that must not influence the two files
@@ -58,6 +64,7 @@ impl Spec {
             skip_ws: true,
             actions: true,
             force: true,
+            force_implicit: false,
             out_dirs: false,
             dot: false,
             trace: false,
@@ -100,6 +107,8 @@ impl Spec {
         s.skip_ws = rng.chance(4, 5);
         s.actions = rng.chance(9, 10);
         s.out_dirs = rng.chance(1, 2);
+        s.force = rng.chance(2, 3);
+        s.force_implicit = !s.force && !s.out_dirs && s.builder == 0 && rng.chance(1, 2);
         s.dot = rng.chance(1, 8);
         s.trace = rng.chance(1, 10);
         s.print_table = rng.chance(1, 10);
@@ -133,7 +142,9 @@ impl Spec {
         } else {
             s = s.root_dir(root.to_path_buf()).in_source_tree();
         }
-        s = s.force(self.force);
+        if !(self.force_implicit && !self.force && !self.out_dirs && self.builder == 0) {
+            s = s.force(self.force);
+        }
         if self.glr {
             s = s.parser_algo(ParserAlgo::GLR);
             s = s.lexical_disamb_grammar_order(self.grammar_order);
@@ -253,7 +264,7 @@ impl Spec {
             "prefer_shifts_over_empty": self.prefer_shifts_over_empty,
             "most_specific": self.most_specific, "longest_match": self.longest_match,
             "grammar_order": self.grammar_order, "partial": self.partial, "skip_ws": self.skip_ws,
-            "actions": self.actions, "force": self.force, "out_dirs": self.out_dirs,
+            "actions": self.actions, "force": self.force, "force_implicit": self.force_implicit, "out_dirs": self.out_dirs,
             "dot": self.dot, "trace": self.trace, "print_table": self.print_table,
         })
     }
@@ -279,6 +290,7 @@ impl Spec {
             skip_ws: b("skip_ws")?,
             actions: b("actions")?,
             force: b("force")?,
+            force_implicit: b("force_implicit").unwrap_or(false),
             out_dirs: b("out_dirs")?,
             dot: b("dot")?,
             trace: b("trace")?,
@@ -293,12 +305,12 @@ impl Spec {
         s.push_str(match self.table { 0 => "/lalr", 1 => "/pager", _ => "/rn" });
         s.push_str(match self.builder { 0 => "/bdef", 1 => "/bgen", _ => "/bcus" });
         s.push_str(if self.arrays { "/arr" } else { "/fn" });
-        let flags: [(&str, bool); 14] = [
+        let flags: [(&str, bool); 15] = [
             ("loc", self.loc_info), ("fancy", self.fancy), ("clex", self.custom_lexer),
             ("ps", self.prefer_shifts), ("nopsoe", !self.prefer_shifts_over_empty && !self.glr),
             ("noms", !self.most_specific), ("nolm", !self.longest_match),
             ("go", self.grammar_order && self.glr), ("partial", self.partial),
-            ("nows", !self.skip_ws), ("noact", !self.actions), ("noforce", !self.force),
+            ("nows", !self.skip_ws), ("noact", !self.actions), ("noforce", !self.force && !self.force_implicit), ("implforce", self.force_implicit),
             ("out", self.out_dirs), ("dot", self.dot),
         ];
         for (n, on) in flags {
